@@ -258,7 +258,10 @@ def build_bytes_from_sse(event: ServerSentEvent, charset: str) -> bytes:
     """
     data: Iterable[bytes]
     if "data" in event:
-        data = (f"data: {_}".encode(charset) for _ in event.pop("data").splitlines())
+        data = (
+            f"data: {_}".encode(charset)
+            for _ in re.split("\r\n|\r|\n", event.pop("data"))
+        )
     else:
         data = ()
     return b"\n".join(
